@@ -24,7 +24,7 @@ deriving Repr, DecidableEq
 
 /-- `request_uri::request_uri(uri)` -/
 def parseUri (uri : Bytes) : Uri :=
-  let p0 := cstr uri
+  let p0 := uri        -- (fix 26c1891: the path is built from the whole string_view, not as a C string)
   let qs := findByte 63 p0
   let fs := findByte 35 p0
   let hasFragment := fs.isSome
